@@ -22,12 +22,7 @@ func pureInstr(in ssa.Instruction) bool {
 	case *ssa.DebugRef, *ssa.Jump:
 		return true
 	case *ssa.BinOp:
-		switch x.Op {
-		case token.QUO, token.REM:
-			return false
-		case token.SHL, token.SHR:
-			return !isSigned(x.Y.Type())
-		}
+		// run-time checks of division and signed shift counts are emitted under the region's guard
 		return widthOf(x.X.Type()) >= 0
 	case *ssa.UnOp:
 		if x.Op == token.MUL {
